@@ -51,7 +51,7 @@ def arg_class(body, op):
     return "other"
 
 
-def skeleton(F, fn):
+def skeleton(F, fn, _depth=0):
     sfns = state_fns(F)
     ev = []
     for lb in logical_bodies(F, fn):
@@ -75,7 +75,14 @@ def skeleton(F, fn):
                         ev.append(("self." + nm,))
                 elif c is not None and not c.raw.get("impl_trait") and c is not fn and (c.raw.get("self_ty") or "").split("<")[0] == (fn.raw.get("self_ty") or "").split("<")[0] and c.kind == "assoc" \
                         and c.name not in ("from_inner",):
-                    ev.append(("Self::" + c.name.replace("_async", ""),) + tuple(arg_class(b, a) for a in t["args"][1:]))
+                    # a same-type wrapper that is itself a pure pass-through to one state method (`Self::set` -> state.set) is
+                    # expanded, so `take` may be written against the wrapper or against the state directly
+                    sub = skeleton(F, c, _depth + 1) if _depth < 2 else []
+                    if len(sub) == 1 and sub[0][0].startswith("state.") and all(isinstance(x, str) and x.startswith("param:") for x in sub[0][1:]) \
+                            and len(sub[0]) - 1 == len(t["args"]) - 1:
+                        ev.append((sub[0][0],) + tuple(arg_class(b, a) for a in t["args"][1:]))
+                    else:
+                        ev.append(("Self::" + c.name.replace("_async", ""),) + tuple(arg_class(b, a) for a in t["args"][1:]))
             for s in b.blocks[blk]["stmts"]:
                 if s["k"] == "assign" and last_field(s["place"]) == "observed_version":
                     x = b.expr_of_rv(s["rv"], 8, ())
